@@ -511,3 +511,67 @@ class ModelReproducesMasters(Contract):
 
     ensures = [prop("interpolating-at-each-master-returns-that-master", lambda a, old, r: And(*[
         eq(0 if got is None else got, want) for got, want in zip(r, a._values)]))]
+
+
+# -- sparse masters and the sub-model cache across reorderMasters ------------------------------------
+
+import itertools as _it
+
+
+@contract
+class SparseModelHistory(Contract):
+    """History contract on one VariationModel object: a sparse query (some masters None), then
+    reorderMasters(mapping), then a sparse query again - the deltas returned after the reorder,
+    interpolated at the location of every master that is present, give back that master's
+    value (for ALL master values; locations, permutations and presence patterns enumerated).
+    A sub-model cached before the reorder must not be used with values in the new order."""
+    module = "fontTools.varLib.models"
+    qualname = "VariationModel.reorderMasters"
+    props = ("C09", "C10")
+    shadow_mode = "real"
+    level = "PF"
+    assumptions = ("A-REAL",)
+    SHAPES = {
+        "1axis-4": [{}, {"a": 1.0}, {"a": 0.5}, {"a": -1.0}],
+        "2axes-4": [{}, {"a": 1.0}, {"b": 1.0}, {"a": 1.0, "b": 1.0}],
+    }
+    variants = tuple((s, p) for s in ("1axis-4", "2axes-4") for p in _it.permutations(range(4)) if p != (0, 1, 2, 3))
+
+    def variants_for(self, tier):
+        if tier == "quick":
+            return tuple(v for v in self.variants if v[1] in ((1, 0, 2, 3), (0, 2, 1, 3), (3, 2, 1, 0), (2, 3, 0, 1), (1, 2, 3, 0)))
+        return self.variants
+
+    def args(self, S, variant):
+        shape, perm = variant
+        return dict(_locs=[dict(l) for l in self.SHAPES[shape]], mapping=list(perm), _values=[S.real("m%d" % i) for i in range(4)])
+
+    def call(self, f, a):
+        cls = self.mod.VariationModel
+        locs = a._locs
+        out = []
+        masks = [m for m in _it.product((True, False), repeat=len(locs)) if m[0] and not all(m)]
+        for mask0 in masks:
+            for mask1 in (mask0, tuple(mask0[i] for i in a.mapping)):
+                m = cls([dict(l) for l in locs], ["a", "b"])
+                vals = list(a._values)
+                m.getDeltasAndSupports([v if keep else None for v, keep in zip(vals, mask0)])
+                new_vals = f(m, vals, list(a.mapping))
+                new_locs = [locs[i] for i in a.mapping]
+                if not mask1[a.mapping.index(0)]:
+                    continue                      # a sub-model needs the default master
+                items = [v if keep else None for v, keep in zip(new_vals, mask1)]
+                deltas, supports = m.getDeltasAndSupports(items)
+                for loc, item in zip(new_locs, items):
+                    if item is None:
+                        continue
+                    got = 0
+                    for d, sup in zip(deltas, supports):
+                        got = got + d * self.mod.supportScalar(loc, sup)
+                    out.append((got, item, (mask0, mask1)))
+        return out, new_vals
+
+    ensures = [
+        prop("sparse-query-after-reorder-reproduces-present-masters", lambda a, old, r: And(len(r[0]) > 0, *[eq(g, w) for g, w, _ in r[0]])),
+        prop("master-list-permuted-as-asked", lambda a, old, r: And(*[eq(r[1][i], a._values[j]) for i, j in enumerate(a.mapping)])),
+    ]
